@@ -80,12 +80,35 @@ def gen_polymer(R, tier):
                 features=['polymer_repeated_weighted_fragment'])
 
 
+def gen_biaryl(R):
+    """two aromatic six rings joined by a (non-aromatic) single bond, a few substituents"""
+    m = molgen.Mol()
+    rings = []
+    for _ in range(2):
+        els = ['C'] * 6
+        if R.chance(0.3):
+            els[R.randint(1, 5)] = 'N'
+        ids = [m.add_atom(e, aromatic=True) for e in els]
+        for a in range(6):
+            m.add_bond(ids[a], ids[(a + 1) % 6], 1.5)
+        m.arom_rings.append(ids)
+        rings.append(ids)
+    m.add_bond(rings[0][0], rings[1][0], 1)
+    for _ in range(R.randint(0, 3)):
+        cands = [i for i in range(len(m.atoms)) if m.free(i) >= 1 and m.atoms[i]['element'] == 'C']
+        x = m.add_atom(R.choice(['C', 'C', 'N', 'O', 'F', 'Cl']))
+        m.add_bond(R.choice(cands), x, 1)
+    return m
+
+
 def gen(R, tier):
     if R.chance(0.1):
         return gen_polymer(R, tier)
     c = dict(R.choice(CLASSES))
     cname = c.pop('name')
     m = molgen.gen_mol(R, **c)
+    if R.chance(0.08):
+        m, cname = gen_biaryl(R), 'biaryl'
     m.atoms = [dict(a) for a in m.atoms]
     if not rdkit_sane(m):
         return None
